@@ -555,6 +555,11 @@ example : probsToSampleCount [1 / 2, 1 / 4, 1 / 4] [-1, -1, -1] 3 [] [0, 0, 1] =
 -- a stalled repair (the stream only ever picks a key that holds 0) and its fair completion
 example : repairHigh [0, 1] [0, 9] 2 [0, 0, 0, 0] = none := by decide
 example : repairHigh [0, 1] [0, 9] 2 [0, 0, 0, 1] = some [0, 7] := by decide
+-- regression (corpus/C09/p2sc-excess-exceeds-largest-count.json): the rounded table holds 2 counts too many
+-- while no state holds more than 1, so the excess has to be taken from two different states; a
+-- one-shot "take it from the most populated state, clamped at 0" would leave a total of 6
+example : probsToSampleCount [13 / 64, 1 / 8, 1 / 8, 1 / 8, 1 / 8, 1 / 8, 1 / 8, 3 / 64]
+    [0, 0, 0, 0, 0, 0, 0, 0] 5 [0, 0, 3, 5] [] = .done false [0, 1, 1, 0, 1, 1, 1, 0] := by decide +kernel
 example : ∃ r, repairHigh (keysOf [4, 4]) [4, 4] (sumI [4, 4] - (7 : Nat)) [0, 1] = some r ∧
     sumI r = (7 : Nat) ∧ ∀ c ∈ r, 0 ≤ c :=
   probs_to_sample_count_terminates_fair [4, 4] 7 [0, 1] (by decide) (by decide) (by decide) (by decide)
